@@ -217,7 +217,20 @@ fn gen_level(r: &mut Rng, p: &mut Pools, depth: usize) -> Shape {
                 let k = r.range(2, 3);
                 let alts: Vec<Shape> = (0..k).filter_map(|_| gen_item(r, p)).collect();
                 if alts.len() >= 2 {
-                    Some(Shape::Alt(alts))
+                    let a = Shape::Alt(alts);
+                    // a default for the whole choice
+                    Some(match r.below(6) {
+                        0 => Shape::Wrap(W::Optional { catch: false }, Box::new(a)),
+                        1 => Shape::Wrap(
+                            W::Fallback {
+                                val: 5,
+                                display: 0,
+                            },
+                            Box::new(a),
+                        ),
+                        2 => Shape::Wrap(W::Many { catch: false }, Box::new(a)),
+                        _ => a,
+                    })
                 } else {
                     alts.into_iter().next()
                 }
@@ -418,6 +431,10 @@ pub struct Item {
     pub group: Option<(usize, usize)>,
     /// one of its variables is declared by another item too
     pub shared_env: bool,
+    /// branch of a choice between alternatives: (node id of the choice, every branch of it is a
+    /// single item that cannot succeed on nothing - a required flag/argument under nothing but
+    /// guard/parse/map/hide)
+    pub alt: Option<(usize, bool)>,
 }
 
 #[derive(Clone, Debug)]
@@ -515,6 +532,7 @@ fn visit(s: &Shape, level: usize, ctx: Ctx, stack: &mut Vec<W>, counter: &mut us
                 stack: st,
                 group: None,
                 shared_env: false,
+                alt: None,
             });
         }
         Shape::Arg {
@@ -533,6 +551,7 @@ fn visit(s: &Shape, level: usize, ctx: Ctx, stack: &mut Vec<W>, counter: &mut us
                 stack: st,
                 group: None,
                 shared_env: false,
+                alt: None,
             });
         }
         Shape::Pos { .. } | Shape::Any { .. } | Shape::Literal { .. } => {
@@ -577,7 +596,14 @@ fn visit(s: &Shape, level: usize, ctx: Ctx, stack: &mut Vec<W>, counter: &mut us
                         | W::Map { .. }
                         | W::Boxed
                 );
-                let c = if transparent { ctx } else { Ctx::Other };
+                // a default or a repetition around a whole choice does not change what each
+                // alternative is
+                let around_choice = matches!(**inner, Shape::Alt(_))
+                    && matches!(
+                        w,
+                        W::Optional { catch: false } | W::Fallback { .. } | W::FallbackWith { .. }
+                    );
+                let c = if transparent || around_choice { ctx } else { Ctx::Other };
                 visit(inner, level, c, &mut Vec::new(), counter, ix);
             }
         }
@@ -594,8 +620,32 @@ fn visit(s: &Shape, level: usize, ctx: Ctx, stack: &mut Vec<W>, counter: &mut us
         }
         Shape::Alt(alts) => {
             let c = ctx.max(Ctx::Alt);
+            fn needy(s: &Shape) -> bool {
+                match s {
+                    Shape::ReqFlag(..) | Shape::Arg { .. } => true,
+                    Shape::Wrap(w, inner) => {
+                        matches!(
+                            w,
+                            W::Guard { .. }
+                                | W::Parse { .. }
+                                | W::Map { .. }
+                                | W::Hide
+                                | W::HideUsage
+                                | W::GroupHelp(_)
+                                | W::Boxed
+                                | W::CustomUsage(_)
+                        ) && needy(inner)
+                    }
+                    _ => false,
+                }
+            }
+            let all_needy = alts.iter().all(needy);
             for a in alts {
+                let before = ix.items.len();
                 visit(a, level, c, &mut Vec::new(), counter, ix);
+                if leaf_chain(a) && ix.items.len() == before + 1 && ctx == Ctx::Simple {
+                    ix.items[before].alt = Some((id, all_needy));
+                }
             }
         }
     }
@@ -1683,7 +1733,7 @@ pub fn run_case(case: &Case, stats: &mut Stats) -> RunReport {
                     // ---- R9: an item declared with variables only behaves like the same item
                     // with an (unused) name added: same class, same value, whatever the state
                     // of its variables
-                    if !named_item && it.ctx == Ctx::Simple && !has_catch && !usage_level_empty {
+                    if !named_item && it.ctx != Ctx::Other && !has_catch && !usage_level_empty {
                         let named_twin = map_leaf(&l.opts, it.id, &|n: &Named| {
                             let mut n = n.clone();
                             n.longs.push("renamed-y");
@@ -2065,6 +2115,40 @@ pub fn run_case(case: &Case, stats: &mut Stats) -> RunReport {
                                     );
                                 }
                             }
+                            // ---- R5 in a choice: when every alternative is a single required
+                            // item, none of them is typed and no other one has its variable
+                            // set, this item's invalid variable value is the only thing there
+                            // is - it must fail the run, not count as "absent"
+                            if let Some((alt_id, true)) = it.alt {
+                                let siblings_idle = l
+                                    .ix
+                                    .iter()
+                                    .filter(|o| o.id != it.id && o.alt.map(|a| a.0) == Some(alt_id))
+                                    .all(|o| {
+                                        info.occurrences.get(&o.id).copied().unwrap_or(0) == 0
+                                            && first_set(&o.named).is_none()
+                                    });
+                                if siblings_idle
+                                    && !has_catch
+                                    && !usage_level_empty
+                                    && value_is_invalid(it, v) == Some(true)
+                                {
+                                    stats.bump("rule.R5alt.evaluated");
+                                    if !matches!(first.outcome, Outcome::Stderr(_)) {
+                                        violation!(
+                                            "R5",
+                                            opi,
+                                            format!("rule=R5 in-choice got={}", first.outcome.class()),
+                                            format!(
+                                                "item {:?} is an alternative, nothing is typed for the choice, its variable holds the invalid value {:?}, yet the run did not fail: {}",
+                                                it.named,
+                                                String::from_utf8_lossy(v),
+                                                describe(&first)
+                                            )
+                                        );
+                                    }
+                                }
+                            }
                             // ---- R5: an invalid value that is used is never masked
                             if it.ctx == Ctx::Simple
                                 && !has_catch
@@ -2074,6 +2158,41 @@ pub fn run_case(case: &Case, stats: &mut Stats) -> RunReport {
                                 stats.bump("rule.R5.evaluated");
                                 if it.stack.iter().any(|w| matches!(w, W::Fallback { .. } | W::FallbackWith { .. })) {
                                     stats.bump("probe.invalid_value_under_fallback");
+                                }
+                                // ... and the failure does not put the blame on a word the
+                                // user typed: if the line is fine without the variable, a
+                                // conversion message that quotes something other than the
+                                // variable's value accuses an innocent word
+                                if let Outcome::Stderr(m) = &first.outcome {
+                                    let quoted = m
+                                        .strip_prefix("couldn't parse `")
+                                        .or_else(|| m.strip_prefix('`'))
+                                        .and_then(|rest| rest.find("`").map(|ix| rest[..ix].to_string()));
+                                    if let Some(w) = quoted {
+                                        let lossy = String::from_utf8_lossy(v).to_string();
+                                        let typed_word = argv
+                                            .iter()
+                                            .any(|t| String::from_utf8_lossy(t) == w.as_str());
+                                        if w != lossy && typed_word && !it.shared_env {
+                                            let without = with_env_removed(&it.named.envs, || run_on(l, op));
+                                            let line_is_fine = match &without.outcome {
+                                                Outcome::Stderr(m2) => conversion_text(m2).is_none(),
+                                                _ => true,
+                                            };
+                                            stats.bump("rule.R5blame.evaluated");
+                                            if line_is_fine {
+                                                violation!(
+                                                    "R5",
+                                                    opi,
+                                                    "rule=R5 blames-typed-word".to_string(),
+                                                    format!(
+                                                        "item {:?} absent from the line, its variable holds the invalid value {:?}; the failure quotes the typed word {:?} as the offender: {}",
+                                                        it.named, lossy, w, m
+                                                    )
+                                                );
+                                            }
+                                        }
+                                    }
                                 }
                                 if !matches!(first.outcome, Outcome::Stderr(_)) {
                                     violation!(
